@@ -128,6 +128,9 @@ IW_INLINE int iwpool_extend(struct iwpool *pool, size_t siz) {
 }
 
 void* iwpool_alloc(size_t siz, struct iwpool *pool) {
+  if (siz > SIZE_T_MAX - (IWPOOL_UNIT_ALIGN_SIZE - 1)) { // the round-up below would wrap to a size of zero
+    return 0;
+  }
   siz = IW_ROUNDUP(siz, IWPOOL_UNIT_ALIGN_SIZE);
   size_t usiz = pool->usiz + siz;
   if (SIZE_T_MAX - pool->usiz < siz) {
@@ -159,7 +162,7 @@ void* iwpool_calloc(size_t siz, struct iwpool *pool) {
 }
 
 char* iwpool_strndup(struct iwpool *pool, const char *str, size_t len, iwrc *rcp) {
-  char *ret = iwpool_alloc(len + 1, pool);
+  char *ret = len < SIZE_T_MAX ? iwpool_alloc(len + 1, pool) : 0; // len + 1 must not wrap to a request of zero bytes
   if (!ret) {
     *rcp = iwrc_set_errno(IW_ERROR_ALLOC, errno);
     return 0;
